@@ -281,6 +281,11 @@ def st_spec(draw):
         if draw(st.integers(0, 3)) == 0:
             feats = sorted(draw(st.lists(st.integers(0, NFEAT - 1), min_size=1,
                                          max_size=4, unique=True)))
+        elif extra == "dangling-first" and typ != "file" and draw(st.booleans()):
+            # an unreachable mirror listed before the reachable one, both claiming
+            # the feature explicitly (the first is dropped while the list is walked)
+            feats = sorted(set([b % NFEAT] + draw(st.lists(
+                st.integers(0, NFEAT - 1), max_size=2))))
         disguise = None
         if typ == "file" and draw(st.integers(0, 5)) == 0:
             # a local path behind a definition whose "type" claims something else
